@@ -69,9 +69,12 @@ def _gen_items(case):
             wopts = [None]
         elif n <= 2:
             wopts = [None] + [list(w) for w in itertools.product([1, 2, 3], repeat=n)]
+            # real-valued (dyadic, exactly representable) weights whose totals stay below 1
+            wopts += [list(w) for w in itertools.product([0.25, 0.125], repeat=n)]
         else:
             r = Rng(case["wseed"], PID, case["enc"], n, lo + k)
-            wopts = [None, [r.randint(1, 3) for _ in range(n)], [r.randint(1, 3) for _ in range(n)]]
+            wopts = [None, [r.randint(1, 3) for _ in range(n)],
+                     [r.choice([0.125, 0.25, 0.125, 0.5, 1.5]) for _ in range(n)]]
         items.append([t, p, wopts])
     return items
 
